@@ -1,6 +1,6 @@
 (* C08 — Types that reach reflection keep their original names at run time. *)
 From Coq Require Import Permutation.
-From Verif Require Import Base.Bytes Model.Position Model.Reflect Proofs.PositionProofs Proofs.ReflectProofs.
+From Verif Require Import Base.Bytes Model.Position Model.Reflect Model.TypeClosure Proofs.PositionProofs Proofs.ReflectProofs Proofs.TypeClosureProofs.
 Open Scope N_scope.
 
 (* (a) the run-time name table: a lookup that takes the highest-priority matching key, with
@@ -24,6 +24,20 @@ Theorem C08_analyse_order_refuted :
     names (analyse o1 init_state) = [T] /\ names (analyse o2 init_state) = [].
 Proof. exact analyse_order_refuted. Qed.
 
+(* (c) which names are recorded when a type reaches reflection (recursivelyRecordUsedForReflect as
+   modelled in Model/TypeClosure.v): for every declared-type table and every root type, whenever the
+   walk ends, it has recorded every declared type and struct field reflection can reach from the root
+   (through fields, pointers, slices, arrays, channels, map keys and elements, func parameters and
+   results, aliases and declared types, however they refer to each other) and nothing else *)
+Theorem C08_closure_complete : forall underlying fuel t R,
+  walk underlying fuel t [] = Some R -> forall o, reach underlying t o -> In o R.
+Proof. exact walk_complete. Qed.
+Theorem C08_closure_sound : forall underlying fuel t R,
+  walk underlying fuel t [] = Some R -> forall o, In o R -> reach underlying t o.
+Proof. exact walk_sound. Qed.
+
 Print Assumptions C08_replacer_priority_is_first_match.
 Print Assumptions C08_restores_name_at_position.
 Print Assumptions C08_analyse_order_refuted.
+Print Assumptions C08_closure_complete.
+Print Assumptions C08_closure_sound.
